@@ -90,7 +90,13 @@ def call_step(case, f, x0, aux):
     if step == "inexact_grad":
         return PS.inexact_gradient_step(x0, f, gamma=g_, epsilon=eps, notion=case["opt"])
     if step == "linesearch":
-        return PS.exact_linesearch_step(x0, f, aux["dirs"])
+        given = list(aux["dirs"])
+        ret = PS.exact_linesearch_step(x0, f, aux["dirs"])
+        # the caller's list is an input: a step that edits it makes every later call that reuses the list record
+        # orthogonality to something the caller never asked for (stronger than documented)
+        aux["dirs_altered"] = len(aux["dirs"]) != len(given) or any(a is not b for a, b in zip(aux["dirs"], given))
+        aux["dirs"] = given
+        return ret
     if step == "inexact_prox":
         return PS.inexact_proximal_step(x0, f, g_, opt=case["opt"])
     if step == "eps_subgrad":
@@ -260,6 +266,9 @@ def check_sym(case, ctx):
     aux["new_samples"] = new_samples
     with prog.quiet():
         ret = call_step(case, f, x0, aux)
+    if aux.get("dirs_altered"):
+        ctx.fail("linesearch:direction-list-altered", "exact_linesearch_step changed the list of directions it was given "
+                 "(%d direction(s) passed): a later call reusing the list records more orthogonality than documented" % case["ndir"])
     rel, samples, cons, fresh = expected_delta(case, ret, f, x0, aux)
     tag = "%s%s" % (step, (":" + case["opt"]) if case["opt"] else "")
     for name, ok in rel:
@@ -398,6 +407,9 @@ def check_real(case, ctx):
             give(aux["gx0"], mem.grad(x0v, rng))
             give(f.value(x0), mem.value(x0v))
         ret = call_step(case, f, x0, aux)
+    if aux.get("dirs_altered"):
+        ctx.fail("linesearch:direction-list-altered", "exact_linesearch_step changed the list of directions it was given "
+                 "(%d direction(s) passed): a later call reusing the list records more orthogonality than documented" % case["ndir"])
     # run the real operation and value the fresh leaves
     if step == "prox":
         x, gx, fx = ret
